@@ -1266,6 +1266,24 @@ class C07(Check):
                         want = "".join(x + "\n" for x in ["S"] + fn(a, b, c) + ["E"])
                         cases.append(Case(cid, simple_run(cid, prog), {"prog": prog, "what": "dangling else", "want_outcome": "ok",
                                                                        "want_stdout": want}, True))
+        # loops whose condition is a constant: the only way out is a break, placed in a then-branch, an else-branch, an else-if
+        # chain, a nested block or behind an inner loop; whatever follows the loop in the same block runs (in a rule, in an if, in
+        # a function before its return)
+        its = "it 0\nit 1\nit 2\n"
+        for cond in ["true", "1", "2.5", '"x"', "!false", "(true)", "1 == 1"]:
+            for kind in ("while", "for"):
+                for body in ['if (i >= 3) break\n print "it", i', 'if (i < 3) { print "it", i } else break',
+                             'if (i < 2) { print "it", i } else if (i < 3) print "it", i else break',
+                             'if (i < 3) print "it", i else { if (true) { break } }',
+                             'if (i < 3) print "it", i else { while (true) { break }\n break }',
+                             'if (i >= 3) { if (i < 0) print "neg" else break }\n print "it", i']:
+                    loop = ("while (%s) { %s\n i++ }" % (cond, body)) if kind == "while" else ("for (j = 0; %s; i++) { %s }" % (cond, body))
+                    prog = ('function fn() { i = 0\n %s\n print "after-fn", i\n return "r" }\nBEGIN { i = 0\n %s\n print "after", i\n'
+                            ' if (true) { i = 0\n %s\n print "in-if", i }\n print fn()\n print "E" }' % (loop, loop, loop))
+                    cid = "k%d" % n
+                    n += 1
+                    cases.append(Case(cid, simple_run(cid, prog), {"prog": prog, "what": "constant-condition loop, break placement", "want_outcome": "ok",
+                                                                   "want_stdout": its + "after 3\n" + its + "in-if 3\n" + its + "after-fn 3\nr\nE\n"}, True))
         sysl = systematic(rng)
         if not thorough:
             sysl = rng.sample(sysl, 250)
